@@ -1081,10 +1081,13 @@ static htp_status_t htp_martp_process_aside(htp_mpartp_t *parser, int matched) {
 }
 
 htp_status_t htp_mpartp_finalize(htp_mpartp_t *parser) {
-    if (parser->current_part != NULL) {
-        // Process buffered data, if any.
+    // Process buffered data, if any. Data set aside while looking for a boundary belongs
+    // to a part even when no part has been started yet (e.g., a one-line epilogue).
+    if ((parser->current_part != NULL) || (bstr_builder_size(parser->boundary_pieces) > 0) || (parser->cr_aside)) {
         htp_martp_process_aside(parser, 0);
+    }
 
+    if (parser->current_part != NULL) {
         // Finalize the last part.
         if (htp_mpart_part_finalize_data(parser->current_part) != HTP_OK) return HTP_ERROR;
 
